@@ -144,6 +144,46 @@ CHECKS = {
             "appends the placeholder on every path, and recursive builders are guarded. Equality of round-tripped "
             "values is NOT decided beyond these clauses.",
             "DESIGN.md section 4 C18"),
+    "C15": ("def-use ordering and shape analysis of the assignment wrapper around the trusted solver; table comparison "
+            "against numpy.iinfo",
+            "Static analysis of NECESSARY conditions around scipy's solver (whose optimality is assumed): (R15a) the answer is "
+            "built from both index arrays of the solver's result, reports weights[i][j] and drops sentinel pairs with a "
+            "strict comparison; (R15b) the missing-pair sentinel exceeds every real total, is folded into max_edge before the "
+            "dtype is chosen and is written into every missing cell before the solver call; (R15c) the integer dtype table "
+            "matches numpy's real ranges, get_dtype tests lo <= min and max < hi, floats stay 64-bit; (R15d) every non-empty "
+            "answer comes from the solver (no shortcut); (R15e) the solver minimises over the whole table. Optimality and "
+            "one-to-one-ness themselves are delegated to scipy and NOT decided.",
+            "DESIGN.md section 4 C15"),
+    "C16": ("effect/pairing analysis of the heap's size counter, minimum pointer and parent/mark bookkeeping; comparator "
+            "mirror check",
+            "THIN static check - structural necessary conditions only: (R16a) _n is incremented exactly on the path that "
+            "links a node and decremented exactly once on the path that unlinks one, reset by clear, summed by merge, and "
+            "is what len()/bool() report; (R16b) peek/pop discard lazily deleted minima first; (R16c) ReversedComparator "
+            "mirrors the natural order; (R16e) every move into the root list clears the parent pointer and _link/_cut keep "
+            "parent/mark/child lists paired; (R16f) the minimum pointer is updated by push, decrease_key, extract and "
+            "consolidate; (R16g) node order and the decrease-only guard. Heap order after arbitrary operation histories - the "
+            "heart of the property - is a runtime-shape property of a pointer structure; no shape analysis in reach proves "
+            "it, and it is NOT decided.",
+            "DESIGN.md section 4 C16"),
+    "C17": ("boolean-structure analysis of the separation predicate, all-paths return analysis, guard checks on the "
+            "search's answer methods, typestate of the exhausted-iterator field",
+            "THIN static check - structural necessary conditions only: (R17a) make_distinct's pair loop exits exactly when "
+            "both intervals are definitive or strictly disjoint, refines both each round, re-inserts an interval only while "
+            "it overlaps, and encodes closed ranges as [lower, upper+1); (R17b) the search's tighten_bounds returns a "
+            "boolean on every path, best_match/remove_best/goal_test answer none/no while candidates remain unprocessed, "
+            "candidates taken from the iterator are retained, the iterator field is used only under a not-None guard, the "
+            "search interval is [min live lower bound, best upper bound]; (R17c) Range.dominates/__lt__/definitive and the "
+            "comparator's refinement loop. That the search ends with a minimum and terminates for every tightening schedule "
+            "is NOT decided.",
+            "DESIGN.md section 4 C17"),
+    "C09": ("call-graph check that all four loaders share one constructor and pass options, return-class closure "
+            "comparison, read/write set intersection for per-format presentation flags, two-role taint in main",
+            "Static analysis: (R09a) the JSON, JSON5, YAML and plist loaders all build through json.build_tree and hand it "
+            "the caller's options on every path; (R09b) each loader returns a node class json.build_tree can return - the "
+            "plist wrapper violates this on today's tree (known finding); (R09c) flags that loaders set after construction "
+            "(quoted) are read by no equality/hash/size/cost code; (R09d = R14a) the CLI selects each file's loader from "
+            "that file's own options. How third-party parsers map the same data is NOT analysed.",
+            "DESIGN.md section 4 C09"),
 }
 
 NOT_YET = "check not built yet in this session (static rules designed in DESIGN.md; will be claimed once the rule runs clean)"
